@@ -3,6 +3,7 @@ package c15
 
 import (
 	"fmt"
+	"math"
 	"testing"
 	"time"
 
@@ -62,6 +63,10 @@ func body(s *simrt.Sim, tier string) {
 				val++
 				o.val = val
 				o.ttl = int64(1 + s.Choose(4, "ttl"))
+				if maxTTL > 0 && s.Choose(8, "hugettl") == 0 {
+					// far above MaxTTL: still capped (seconds that do not fit a time.Duration included)
+					o.ttl = []int64{1 << 40, 9223372037, math.MaxInt64}[s.Choose(3, "hugettl.v")]
+				}
 			case k < 10:
 				o.kind = "Get"
 			case k < 11:
